@@ -20,7 +20,7 @@ def gen_core(r):
     bad = ['comp', ['mod', r.randint(2, 4)], ['eq', enc(r.randint(0, 1))]] if r.random() < 0.7 else \
         r.choice([['gt', enc(r.randint(3, 9))], ['lt', enc(r.randint(0, 4))], ['const', enc(True)]])
     # exception classes of every kind a user function may raise (the model treats the class as an opaque code)
-    code = r.choice([1, 2, 3, 4, 1, 2, 6, 7, 8, 10, 12])
+    code = r.choice([1, 2, 3, 4, 1, 2, 6, 7, 8, 10, 12, 13, 13])
     k = r.choice(['map', 'filter', 'scan', 'scan', 'map'])
     if k == 'map':
         f = r.choice([['add', enc(1)], ['mul', enc(3)], ['id']])
